@@ -61,6 +61,10 @@ def cases(tier, seed):
                     continue
                 for other in ("none", "relaxation"):
                     yield {"backend": "sv", "shape": shape, "kind": kind, "other": other, "mask": list(mask), "perm": None}
+                if kind == "global" and n <= 3 and 0 < sum(mask) < n:
+                    # a user-supplied interaction matrix (Pulser never masks that one) with a channel that excites undriven atoms: the
+                    # density-matrix path; only the well-prepared atoms are compared
+                    yield {"backend": "sv", "shape": shape, "kind": kind, "other": "depolarizing", "mask": list(mask), "perm": None, "custom": True}
                 for other in ("none", "leakage", "nojump_relaxation"):
                     if other == "nojump_relaxation" and kind == "local":
                         continue
@@ -105,6 +109,8 @@ def _noise(other):
     kw = dict(state_prep_error=0.25, p_false_pos=0.0, p_false_neg=0.0)
     if other in ("relaxation", "nojump_relaxation"):
         kw["relaxation_rate"] = 0.8 if other == "relaxation" else 6.0
+    if other == "depolarizing":
+        kw["depolarizing_rate"] = 0.6
     if other == "leakage":
         op = np.zeros((3, 3), dtype=complex)
         op[2, 2] = 1
@@ -128,6 +134,8 @@ def _run(case, shots=0, dt=10):
 
     spec = _spec(case["shape"], case["kind"])
     cfg = {"dt": dt, "eval": [1.0], "precision": 1e-9, "ordering": case["perm"] is not None}
+    if case.get("custom"):
+        cfg["interaction_matrix"] = _custom(len(case["mask"]))
     noise = _noise(case["other"])
     obs = _observables(case["backend"], shots)
     with seams.pulser_np_random(uniform=[seams.bad_mask_uniform(case["mask"])]):
@@ -142,6 +150,13 @@ def _run(case, shots=0, dt=10):
                 else:
                     res, _ = runner.run_mps(spec, cfg, observables=obs, noise=noise)
     return res
+
+
+def _custom(n, keep=None):
+    U = [[0.0 if i == j else 4.0 + 1.5 * (i + j) for j in range(n)] for i in range(n)]
+    if keep is not None:
+        U = [[U[i][j] for j in keep] for i in keep]
+    return U
 
 
 def _reference(case, dt=10):
@@ -159,7 +174,14 @@ def _reference(case, dt=10):
             L = np.zeros((2, 2), dtype=complex)
             L[0, 1] = np.sqrt(0.8)
             Ls = R.embed_all([L], len(keep), 2)
-        ref = runner.Ref(spec, {"dt": dt, "eval": [0.2, 0.5, 1.0]}, slm_rule="mid", Ls=Ls)
+        if case["other"] == "depolarizing":
+            g = np.sqrt(0.6 / 4)
+            paulis = [g * np.array([[0, 1], [1, 0]], dtype=complex), g * np.array([[0, -1j], [1j, 0]], dtype=complex), g * np.array([[1, 0], [0, -1]], dtype=complex)]
+            Ls = R.embed_all(paulis, len(keep), 2)
+        rcfg = {"dt": dt, "eval": [0.2, 0.5, 1.0]}
+        if case.get("custom"):
+            rcfg["interaction_matrix"] = _custom(n, keep)
+        ref = runner.Ref(spec, rcfg, slm_rule="mid", Ls=Ls)
         if case["other"] == "nojump_relaxation":
             # no-jump trajectory: evolution under H - i/2 sum L^dag L, observables of the NORMALISED state
             L = np.zeros((2, 2), dtype=complex)
@@ -207,13 +229,21 @@ def run_case(case):
         return result(False, sig="atom_order", msg=f"{label}: atom_order {res.atom_order}", outcome="order")
     occ, corr, born, energy = _reference(case)
     tol = 1e-6 if (case["backend"] == "sv" or good <= 2) else (1e-3 if case["kind"] == "slm" and good >= 4 else 5e-5)  # TDVP splitting classes as in C02
+    keep_idx = [i for i, b in enumerate(case["mask"]) if not b]
     for t in (0.5, 1.0):
         got = runner.to_np(runner.get_at(res, "occupation", t)).astype(float)
         if got.shape != (n,):
             return result(False, sig=f"shape|{sig_ctx}", msg=f"{label}: occupation has shape {got.shape}", outcome="shape")
+        if case.get("custom"):
+            # only the well-prepared atoms are judged here (what the noise channel does to an absent atom is not the subject)
+            if np.abs(got[keep_idx] - occ[t][keep_idx]).max() > tol:
+                return result(False, sig=f"occupation|good-atom|{case['backend']}|custom-matrix", msg=f"{label}: occupation of the well-prepared atoms at t={t} {np.round(got[keep_idx], 6).tolist()} but the reduced register gives {np.round(occ[t][keep_idx], 6).tolist()}", outcome="occ")
+            continue
         if np.abs(got - occ[t]).max() > tol:
             where = "bad-atom" if any(abs(got[i]) > tol for i in range(n) if case["mask"][i]) else "good-atom"
             return result(False, sig=f"occupation|{where}|{case['backend']}|{'perm' if case['perm'] else 'noperm'}", msg=f"{label}: occupation at t={t} {np.round(got, 6).tolist()} but the reduced register gives {np.round(occ[t], 6).tolist()}", outcome="occ")
+    if case.get("custom"):
+        return result(True, outcome=["ok-custom", rnd(occ[1.0], 4)], transitions=transitions, nontrivial=True)
     gc = runner.to_np(runner.get_at(res, "correlation_matrix", 1.0)).astype(float)
     if gc.shape != (n, n) or np.abs(gc - corr).max() > tol:
         return result(False, sig=f"correlation|{case['backend']}", msg=f"{label}: correlation matrix {np.round(gc, 6).tolist()} but the reduced register gives {np.round(corr, 6).tolist()}", outcome="corr")
